@@ -181,13 +181,12 @@ def rule_isolation(ctx: Ctx) -> None:
     for a in aw:
         ok, why = isolated(a)
         ctx.check(ok, "C14.2", "handler exception is contained", ceh, a, why, why)
-    ex = ctx.func(f"{DISP}.EventDispatcher._execute_scheduled")
-    aw = [n for n in C.walk_shallow(ex.node) if isinstance(n, ast.Await) and isinstance(n.value, ast.Call)
-          and isinstance(n.value.func, ast.Name) and n.value.func.id in ex.params]
-    ctx.floor("C14.2", "await job() in _execute_scheduled", len(aw), 1)
-    for a in aw:
-        ok, why = isolated(a)
-        ctx.check(ok, "C14.2", "job exception is contained", ex, a, why, why)
+    from .c13 import job_invocations
+    sites = job_invocations(ctx)
+    ctx.floor("C14.2", "invocations of the scheduled job callable", len(sites), 1)
+    for f2, node, what in sites:
+        ok, why = isolated(node)
+        ctx.check(ok, "C14.2", f"job exception is contained ({what})", f2, node, why, why)
     # _dispatch_event calls handlers only through _call_event_handler, in gathers
     de = ctx.func(f"{DISP}.EventDispatcher._dispatch_event")
     for c in A.func_calls(de):
